@@ -34,6 +34,18 @@ var Metas = map[string]Meta{
 		Technique: "symbolic execution of go/ssa with a reflect model + SMT (QF_BV); native replay",
 		Design:    "DESIGN.md §4 C11",
 	},
+	"C12": {
+		Text:      "A message of each kind (send by pid/name/alias, call by pid/name/alias, response, exit) with symbolic 64-bit ids, priority, reference and payload is executed symbolically through the real sender method of one connection, the produced bytes (with a second frame behind them) through the real serve/read/handleRecvQueue and the real EDF codec of a second connection into a fake core: delivered exactly once, to the addressee, with the true sender, equal payload and options. Segmentation: every way of cutting two frames into <=3 TCP segments. Size limits at sender and receiver with symbolic payloads; important-delivery acknowledgement with the request's reference and the remote result, with pooled buffers treated as arbitrary after release.",
+		Note:      bmcNote + " Compression algorithms, the flusher timer, proxies/fragmentation and buffers beyond 8 KiB are outside; links are in-memory sinks.",
+		Technique: "symbolic execution of go/ssa (sender -> bytes -> receiver pipeline) + SMT (QF_BV); native replay",
+		Design:    "DESIGN.md §4 C12",
+	},
+	"C16": {
+		Text:      "Untrusted input is a symbolic byte string with a symbolic small length: it is fed to the real serve/read/handleRecvQueue (frame parser; with and without a well-formed magic/version prefix so every message-type branch is reached) and to the real edf.Decode (plus a targeted family starting with an array type descriptor). The executor reports any panic that escapes a goroutine (node crash), any deadlock, and the largest single allocation; assertions: deliveries <= frames, allocation in proportion to the input, decoded values re-encode to bytes that decode equal. One recorded finding (array descriptor length) is excluded by its exact predicate and reproduced natively on every run.",
+		Note:      bmcNote + " Bounded: <=20 input bytes for frames, <=7 for free-form EDF, <=11 for the array family; stdlib decompressors and the handshake reader are outside unless listed in the evidence.",
+		Technique: "symbolic execution of go/ssa over symbolic input buffers with an allocation monitor + SMT (QF_BV); native replay",
+		Design:    "DESIGN.md §4 C16",
+	},
 	"C13": {
 		Text:      "The deterministic choice functions that keep a process pair's traffic on one path are executed symbolically from the real code: SendPID/send pick the pooled link from from.ID (64-bit symbolic) and the pool length (1..8, optionally grown between two sends); serve/read pick the receive queue from the order byte the sender derived from to.ID. The solver decides for every pair of ids whether two consecutive messages share link, order byte and queue and stay in arrival order. Two recorded findings (ids that are multiples of 255; pool growth between sends) are excluded by their exact predicate and reproduced natively on every run.",
 		Note:      bmcNote + " The claim is about link/queue selection and queue order; real TCP delays and the one-worker-per-queue lock protocol under concurrency are outside (the latter is covered when a concurrency entry is present in the evidence).",
